@@ -394,6 +394,8 @@ class KAT:
             return Flat()
         if cn in ("int", "float") and len(args) == 1:
             return self.ev(args[0])
+        if cn == "len" and len(args) == 1 and unparse(args[0]) in self.index_axes and 0 in self.index_axes[unparse(args[0])]:
+            return Ext(self.index_axes[unparse(args[0])][0])       # len(a) is the extent of a's leading axis
         if cn == "divmod" and len(args) == 2:
             v, w = self.ev(args[0]), self.ev(args[1])
             if isinstance(v, Flat) and isinstance(w, Ext):
@@ -412,6 +414,12 @@ class KAT:
             if isinstance(v, Pair) and dims is not None and unparse(dims) in ("-1", "[-1]", "(-1,)", "dims=-1"):
                 return Pair((v.order[1], v.order[0]))
             return v
+        if short == "indices" and args:
+            # np.indices(shape): grid k varies along axis k and runs over shape[k] — 'ij' by definition
+            sh = self.ev(args[0])
+            if isinstance(sh, Seq) and len(sh.items) == 2 and all(isinstance(i, Ext) for i in sh.items):
+                return Seq(tuple(Comp(i.axis, -2 + k, False) for k, i in enumerate(sh.items)))
+            return None
         if short == "meshgrid":
             idx = kwarg(e, "indexing")
             mode = idx.value if isinstance(idx, ast.Constant) else ("xy" if cn.startswith("np.") else "ij")
